@@ -235,15 +235,13 @@ def readFromStream(substrate, size=-1, context=None):
         try:
             received = substrate.read(size)
 
-        except OverflowError:
-            # e.g. a length field claiming more octets than can be addressed
-            raise error.PyAsn1Error(
-                'Read size %s is beyond what a stream can hold' % (size,))
-
-        except MemoryError:
-            # File objects allocate the whole read buffer up front. What
-            # cannot even be buffered is not there either: take what there
-            # is, so it is handled like the same octets in memory.
+        except (OverflowError, MemoryError):
+            # A length field claiming more octets than can be addressed, or
+            # than a file object (which allocates the whole read buffer up
+            # front) can buffer. Where that limit lies depends on the kind
+            # of stream. What cannot even be buffered is not there either:
+            # take what there is, so it is handled like the same octets in
+            # memory.
             received = substrate.read(io.DEFAULT_BUFFER_SIZE)
 
         if received is None:  # non-blocking stream can do this
